@@ -14,7 +14,10 @@ const c01Rule = "generated schedule (which parked goroutine runs next at every c
 // TestC01SingleBuild: Failover never runs two builds for the same key at the same time.
 func TestC01SingleBuild(t *testing.T) {
 	runCheck(t, "C01", "C01SingleBuild", c01Rule, func(c *Case) {
-		propFailoverSched(c, scenOpts{maxKeys: 3, minGets: 2, maxGets: 6, skipRead: true, clock: 4, external: 2, prefail: true, postActions: true, errKinds: true, faults: 1}, nil)
+		noop := c.Weighted("NoOp-backend", 7, 1) == 1 // the single-build oracle does not look at the backend
+
+		propFailoverSched(c, scenOpts{maxKeys: 3, minGets: 2, maxGets: 6, skipRead: true, clock: 4, external: 2, prefail: true, postActions: true, errKinds: true, faults: 1,
+			forceCfg: func(cfg *foCfg) { cfg.noopBackend = noop && cfg.variant != 2 }}, nil)
 	})
 }
 
